@@ -1118,7 +1118,7 @@ func nonASCIIStream(v int, stream []byte) bool {
 // ---- C11 ----
 func runC11(r *Run) {
 	g := r.rng
-	r.st.Rule = "histories of 5-40 operations (Pack, one-shot UnpackBytes, buffer feed, single streaming Unpack, Unpack-until-not-done; successful, failing and partial) interleaved over 1-3 connection contexts of both versions on one goroutine, each result compared with the model (whose results are the operation in isolation plus that context's own buffered bytes); deliberately awkward orders: partial request then push, response then push, failed decode then anything, compressed then uncompressed; plus N goroutines with independent contexts compared with the sequential results. distinct = distinct request lines"
+	r.st.Rule = "histories of 5-40 operations (Pack, one-shot UnpackBytes, buffer feed, single streaming Unpack, Unpack-until-not-done; successful, failing and partial) interleaved over 1-3 connection contexts of both versions on one goroutine, each result compared with the model (whose results are the operation in isolation plus that context's own buffered bytes); deliberately awkward orders: partial request then push, response then push, failed decode then anything, compressed then uncompressed; plus N goroutines with independent contexts compared with the sequential results. Finally the same frame (gzip bodies: one member, two members, member + empty member, member + garbage, truncated, not gzip; both versions) is decoded five times, the first time after two garbage collections so that the pools are empty: all five results must be equal. distinct = distinct request lines"
 	nh := 300
 	if r.thorough() {
 		nh = 6000
